@@ -218,6 +218,57 @@ pub fn run_c07(out: &mut Out, tier: &str, seed: u64) {
             if bit % 41 == 0 && len <= 65 { out.case("auth.verify", &[b(&bad), b(&msg), b(&key32)], &r.map(|_| vec![]), true); }
         }
     }
+    // the object API's verify entry points (one-shot and incremental, array and Vec authenticators): accept the
+    // correct authenticator, reject every single-bit change
+    {
+        use dryoc::auth::Auth;
+        use dryoc::onetimeauth::OnetimeAuth;
+        use dryoc::types::*;
+        for len in [0usize, 1, 16, 33, 64, 129] {
+            let msg = rng.bytes(len);
+            let cut = if len == 0 { 0 } else { (rng.below(len as u64 + 1)) as usize };
+            let amac = sodium::auth(&msg, &key32);
+            let omac = sodium::onetimeauth(&msg, &key32);
+            let k = || StackByteArray::<32>::from(&key32);
+            let auth_inc = |mac: &[u8; 32]| guard(|| { let mut a = Auth::new(k()); a.update(&msg[..cut].to_vec()); a.update(&msg[cut..].to_vec()); a.verify(&StackByteArray::<32>::from(mac)) });
+            let auth_inc_vec = |mac: &[u8; 32]| guard(|| { let mut a = Auth::new(k()); a.update(&msg); a.verify(&mac.to_vec()) });
+            let auth_one = |mac: &[u8; 32]| guard(|| Auth::compute_and_verify(&StackByteArray::<32>::from(mac), k(), &msg));
+            let ota_inc = |mac: &[u8; 16]| guard(|| { let mut a = OnetimeAuth::new(k()); a.update(&msg[..cut].to_vec()); a.update(&msg[cut..].to_vec()); a.verify(&StackByteArray::<16>::from(mac)) });
+            let ota_inc_vec = |mac: &[u8; 16]| guard(|| { let mut a = OnetimeAuth::new(k()); a.update(&msg); a.verify(&mac.to_vec()) });
+            let ota_one = |mac: &[u8; 16]| guard(|| OnetimeAuth::compute_and_verify(&StackByteArray::<16>::from(mac), k(), &msg));
+            out.search_evaluations += 6;
+            for (name, r) in [("obj.auth.verify", auth_inc(&amac)), ("obj.auth.verify.vec", auth_inc_vec(&amac)), ("obj.auth.compute_and_verify", auth_one(&amac)),
+                              ("obj.onetimeauth.verify", ota_inc(&omac)), ("obj.onetimeauth.verify.vec", ota_inc_vec(&omac)), ("obj.onetimeauth.compute_and_verify", ota_one(&omac))] {
+                if !r.is_ok() { out.hit(&format!("{}.rejects-correct-mac", name), format!("len {} split {}", len, cut), json!({"op":name,"key":hx(&key32),"msg":hx(&msg),"split":cut})); }
+            }
+            for bit in 0..256 {
+                let mut bad = amac; bad[bit / 8] ^= 1 << (bit % 8);
+                out.search_evaluations += 3;
+                for (name, r) in [("obj.auth.verify", auth_inc(&bad)), ("obj.auth.verify.vec", auth_inc_vec(&bad)), ("obj.auth.compute_and_verify", auth_one(&bad))] {
+                    if !r.is_err() { out.hit(&format!("{}.accepts-wrong-mac", name), format!("len {} bit {}", len, bit), json!({"op":name,"key":hx(&key32),"msg":hx(&msg),"mac":hx(&bad)})); }
+                }
+            }
+            for bit in 0..128 {
+                let mut bad = omac; bad[bit / 8] ^= 1 << (bit % 8);
+                out.search_evaluations += 3;
+                for (name, r) in [("obj.onetimeauth.verify", ota_inc(&bad)), ("obj.onetimeauth.verify.vec", ota_inc_vec(&bad)), ("obj.onetimeauth.compute_and_verify", ota_one(&bad))] {
+                    if !r.is_err() { out.hit(&format!("{}.accepts-wrong-mac", name), format!("len {} bit {}", len, bit), json!({"op":name,"key":hx(&key32),"msg":hx(&msg),"mac":hx(&bad)})); }
+                }
+            }
+        }
+    }
+    // the multi-part entry points against the specification as well (one three-way split per length; every split is C08's)
+    for len in (0..=max_len).step_by(if thorough { 1 } else { 3 }) {
+        let msg = msg_of(&mut rng, len, len);
+        let a = rng.below(len as u64 + 1) as usize; let bq = a + rng.below((len - a) as u64 + 1) as usize;
+        let pieces: [&[u8]; 3] = [&msg[..a], &msg[a..bq], &msg[bq..]];
+        out.search_evaluations += 4;
+        let rp = json!({"key":hx(&key32),"msg":hx(&msg),"split":[a, bq - a, len - bq]});
+        if d_onetimeauth_chunks(&key32, &pieces) != sodium::onetimeauth(&msg, &key32) { out.hit("onetimeauth.multi-part.differs-from-libsodium", format!("len {} split {:?}", len, [a, bq - a, len - bq]), rp.clone()); }
+        if d_auth_chunks(&key32, &pieces) != sodium::auth(&msg, &key32) { out.hit("auth.multi-part.differs-from-libsodium", format!("len {} split {:?}", len, [a, bq - a, len - bq]), rp.clone()); }
+        if d_sha512_chunks(&pieces) != sodium::sha512(&msg) { out.hit("sha512.multi-part.differs-from-libsodium", format!("len {} split {:?}", len, [a, bq - a, len - bq]), rp.clone()); }
+        if d_generichash_chunks(32, None, &pieces, 32).ok() != sodium::generichash(32, &msg, None) { out.hit("generichash.multi-part.differs-from-libsodium", format!("len {} split {:?}", len, [a, bq - a, len - bq]), rp.clone()); }
+    }
     // cores and increment
     let n = if thorough { 400 } else { 96 };
     for k in 0..n {
